@@ -14,7 +14,7 @@
    cache transparency, buffer preservation. *)
 Require Import PG.Base.Bytes PG.Base.GoSlice PG.Base.Value.
 Require PG.Props.C01 PG.Props.C08 PG.Props.C12 PG.Props.C13 PG.Props.C15 PG.Props.C19 PG.Props.C20.
-Require PG.C01.MoreProofs PG.C12.Lib PG.C12.Model PG.C12.Spec PG.C13.Model PG.C19.ChecksumModel.
+Require PG.C01.MoreProofs PG.C12.Lib PG.C12.Model PG.C12.Spec PG.C12.HistoricProofs PG.C13.Model PG.C19.ChecksumModel.
 Require PG.C11.JsonOrderProofs PG.C11.RemoteOrderProofs PG.C11.StateModel PG.C11.StateProofs PG.C11.CliModel
         PG.C11.OrderProofs PG.C11.TextProofs.
 Require Import Coq.Sorting.Permutation.
@@ -84,6 +84,17 @@ Proof. exact (exec_string_order E ro1 ro2 P1 P2 CM). Qed.
 Theorem C11_order_DumpDataDir_paths : forall fs opts, DumpDataDir E1 fs opts = DumpDataDir E2 fs opts.
 Proof. exact (datadir_order E ro1 ro2 P1 P2 CM). Qed.
 End Remote.
+(* non-vacuity: C12's witness environment satisfies class_map_ok, and two different orders are permutations *)
+Example C11_order_remote_nonvacuous :
+  PG.C11.RemoteOrderProofs.class_map_ok PG.C12.HistoricProofs.w_env /\
+  PG.C11.RemoteOrderProofs.perm_order (@rev (Z * PG.C12.Lib.TableInfo)) /\
+  PG.C11.RemoteOrderProofs.perm_order (fun l : list (Z * PG.C12.Lib.TableInfo) => l).
+Proof.
+  split; [|split].
+  - intros d. split; [cbn; repeat constructor; intros []|intros e [<-|[]]; reflexivity].
+  - intros l. symmetry. apply Permutation_rev.
+  - intros l. reflexivity.
+Qed.
 Print Assumptions C11_order_Tables.
 Print Assumptions C11_order_DumpAll.
 Print Assumptions C11_order_Summary_MarshalJSON.
